@@ -1,9 +1,11 @@
 //! Engine E1: deterministic multi-node simulator (virtual clock, executor, network, storage).
 
+pub mod adv;
 pub mod clock;
 pub mod exec;
 pub mod kv;
 pub mod net;
+pub mod node;
 
 pub use exec::{Exec, Sched, Stop};
 pub use kv::MemKv;
